@@ -25,6 +25,16 @@ def run(chk, tier):
     spec_group.check_groups(chk, glib, limit=None if tier == "thorough" else 8)
     spec_group.check_bases(chk, glib, limit=None if tier == "thorough" else 8)
     spec_layout.check_validator_recurrence(chk)
+    # set choice setters write one bit of the field: shift rule (mask computed in the set's width) and mask rows
+    import rint
+    import schemas
+    import spec_set
+    from props._lib import is_lib_or_gen
+    root, _ = schemas.generate_all()
+    slib = lib_for("vprims_le", "c++17")
+    rint.RInt(chk, slib.facts, slib.label, ("S4",)).run(
+        lambda f: is_lib_or_gen(f, root) and (f.get("cls_tpl") == "sbepp::detail::bitset_base"))
+    spec_set.check(chk, slib, root)
     e4.check(chk, ("accessors", "cursor", "fillers"), tier)
     chk.floor("CODEC.set instantiations", chk.rule_counts.get("CODEC.set", 0), 40)
     chk.floor("E4.accessor entities", chk.rule_counts.get("E4.accessor", 0), 400)
